@@ -219,10 +219,14 @@ func init() {
 				c.assert(Implies(Eq(a[0], IntLit(0)), Eq(r, Eq(a[1], IntLit(0)))))
 				return []Term{r}
 			}},
-		"os.Stat": {reason: "stat(2): returns file information or an error; changes nothing",
+		"os.Stat": {reason: "stat(2): succeeds exactly when the path exists (permission and I/O faults excluded); changes nothing",
 			apply: func(fr *Frame, v *ssa.Call, cc *ssa.CallCommon, a []Term, at Term, st *State) []Term {
 				c := fr.c
-				return []Term{c.fresh("finfo", SAny), c.fresh("staterr", SInt)}
+				e := c.fresh("staterr", SInt)
+				if cell, ok := c.ghostCell("fsExists"); ok {
+					c.assert(Eq(Eq(e, IntLit(0)), Select(c.get(st, cell), a[0], SBool)))
+				}
+				return []Term{c.fresh("finfo", SAny), e}
 			}},
 		"invoke:IsDir": {reason: "FileInfo.IsDir is a predicate on the file information",
 			apply: func(fr *Frame, v *ssa.Call, cc *ssa.CallCommon, a []Term, at Term, st *State) []Term {
@@ -231,7 +235,18 @@ func init() {
 			}},
 		"os.MkdirAll": {reason: "mkdir -p: creates directories, never touches an existing regular file",
 			apply: func(fr *Frame, v *ssa.Call, cc *ssa.CallCommon, a []Term, at Term, st *State) []Term {
-				return []Term{fr.c.fresh("mkerr", SInt)}
+				c := fr.c
+				e := c.fresh("mkerr", SInt)
+				if cell, ok := c.ghostCell("fsExists"); ok {
+					cur := c.get(st, cell)
+					c.set(st, cell, Ite(Eq(e, IntLit(0)), Store(cur, a[0], True), cur))
+				}
+				return []Term{e}
+			},
+			writes: func(fr *Frame, cc *ssa.CallCommon, ws map[string]bool) {
+				if cell, ok := fr.c.ghostCell("fsExists"); ok {
+					ws[cell] = true
+				}
 			}},
 		"os.Getwd": {reason: "returns the working directory or an error",
 			apply: func(fr *Frame, v *ssa.Call, cc *ssa.CallCommon, a []Term, at Term, st *State) []Term {
@@ -243,11 +258,18 @@ func init() {
 				if cell, ok := c.ghostCell("fsWrites"); ok {
 					c.set(st, cell, Add(c.get(st, cell), IntLit(1)))
 				}
-				return []Term{c.fresh("werr", SInt)}
+				e := c.fresh("werr", SInt)
+				if cell, ok := c.ghostCell("fsExists"); ok {
+					cur := c.get(st, cell)
+					c.set(st, cell, Ite(Eq(e, IntLit(0)), Store(cur, a[0], True), cur))
+				}
+				return []Term{e}
 			},
 			writes: func(fr *Frame, cc *ssa.CallCommon, ws map[string]bool) {
-				if cell, ok := fr.c.ghostCell("fsWrites"); ok {
-					ws[cell] = true
+				for _, g := range []string{"fsWrites", "fsExists"} {
+					if cell, ok := fr.c.ghostCell(g); ok {
+						ws[cell] = true
+					}
 				}
 			}},
 		"fmt.Println": {reason: "fmt.Println writes one text line to stdout (ghost counter stdoutText)", apply: applyStdoutText, writes: writesStdoutText},
@@ -280,6 +302,11 @@ func (c *Enc) ghostCell(name string) (string, bool) {
 	g, ok := c.eng.cf.Ghosts[name]
 	if !ok {
 		return "", false
+	}
+	if g.Type == "pathset" {
+		// a set of path strings (which files exist)
+		c.heapVar("G_"+name, ArraySort(SInt, SBool))
+		return "G_" + name, true
 	}
 	ty, err := c.eng.resolveType(g.Type)
 	if err != nil {
